@@ -1032,10 +1032,10 @@ def generate_dc(repo=None):
     return HEADER_DC % ("rockit/direct_collocation.py", hashlib.sha256(src.encode()).hexdigest()[:16]) + body + "\nEnd GenDc.\n"
 
 
-def workdir(repo=None):
+def workdir(repo=None, tag=""):
     repo = os.path.realpath(repo or REPO)
     from .common import VERIF
-    d = os.path.join(VERIF, "work", "gen_" + hashlib.sha256(repo.encode()).hexdigest()[:10])
+    d = os.path.join(VERIF, "work", "gen_" + hashlib.sha256(repo.encode()).hexdigest()[:10] + (("_" + tag) if tag else ""))
     os.makedirs(os.path.join(d, "Gen"), exist_ok=True)
     os.makedirs(os.path.join(d, "Tie"), exist_ok=True)
     return d
@@ -1051,10 +1051,10 @@ TIES = {
 }
 
 
-def regenerate(repo=None, which="Intg"):
+def regenerate(repo=None, which="Intg", tag=""):
     """writes work/gen_<repo>/Gen/<X>Gen.v from the tree under test; returns (ok, message, dir)"""
     gen_f, gen_name, _ = TIES[which]
-    d = workdir(repo)
+    d = workdir(repo, tag)
     out = os.path.join(d, "Gen", gen_name)
     try:
         text = gen_f(repo)
@@ -1069,12 +1069,12 @@ def regenerate(repo=None, which="Intg"):
     return True, "", d
 
 
-def check_tie(repo=None, which="Intg", timeout=600):
+def check_tie(repo=None, which="Intg", timeout=600, tag=""):
     """regenerate, compile the generated file and the tie lemmas against it.
     returns dict(ok, stage, log, lemmas, assumptions, generated_sha)"""
     import subprocess, re, shutil
     _, gen_name, tie_name = TIES[which]
-    ok, msg, d = regenerate(repo, which)
+    ok, msg, d = regenerate(repo, which, tag)
     res = {"ok": False, "stage": "translate", "log": msg, "lemmas": [], "assumptions": {}, "dir": d, "tie_file": "coq/Tie/" + tie_name}
     if not ok:
         return res
